@@ -152,7 +152,49 @@ fn path_probes() {
     println!("paths bytes={}", hex(out.as_bytes()));
 }
 
+/// C19 for this feature set: write the generated schema and serialised registries (whole corpus, retained part, every root alone).
+#[cfg(feature = "emit-schema")]
+fn emit_schema(dir: &str) {
+    use std::io::Write;
+    std::fs::create_dir_all(dir).expect("emit dir");
+    let schema = schemars::schema_for!(PortableRegistry);
+    std::fs::write(format!("{}/schema.json", dir), serde_json::to_vec_pretty(&schema).unwrap()).expect("write schema");
+    let mut f = std::io::BufWriter::new(std::fs::File::create(format!("{}/docs-0.jsonl", dir)).unwrap());
+    let mut n = 0u64;
+    let mut emit = |r: &PortableRegistry, origin: &str| {
+        let doc = serde_json::to_value(r).expect("serialise");
+        writeln!(f, "{}", serde_json::json!({"case": n, "origin": origin, "doc": doc})).unwrap();
+        n += 1;
+    };
+    let metas = gen::metas();
+    let mut reg = Registry::new();
+    for (_, m) in &metas {
+        reg.register_type(m);
+    }
+    let whole: PortableRegistry = reg.into();
+    emit(&whole, "whole corpus");
+    let mut kept = whole.clone();
+    kept.retain(|id| id % 3 == 0);
+    emit(&kept, "retained");
+    emit(&PortableRegistry { types: vec![] }, "empty");
+    for (_, m) in metas.iter().step_by(3) {
+        let mut r = Registry::new();
+        r.register_type(m);
+        emit(&r.into(), "one root");
+    }
+    f.flush().unwrap();
+    println!("emitted documents={}", n);
+}
+
 fn main() {
+    #[cfg(feature = "emit-schema")]
+    {
+        let args: Vec<String> = std::env::args().collect();
+        if let Some(k) = args.iter().position(|a| a == "--emit-schema") {
+            emit_schema(&args[k + 1]);
+            return;
+        }
+    }
     std::panic::set_hook(Box::new(|_| {}));
     path_probes();
     // a second registry on the same thread, roots in the opposite order, before and after the main one
